@@ -304,6 +304,12 @@ func lifeMain(args []string) error {
 	heldOpenMu.Lock()
 	held := len(heldOpen)
 	heldOpenMu.Unlock()
+	// still serving after the server's own timers (30 s) have run out?
+	probeLate := probeOK
+	if *idle > 0 {
+		probeLate = probe()
+		note("idle probe=%v", probeLate)
+	}
 	fatal := 0
 	// every event the services emitted: does it serialise, and do its payload fields agree with each other?
 	evTotal, evJSONBad, evPayloadBad := 0, 0, 0
@@ -343,7 +349,7 @@ func lifeMain(args []string) error {
 	}
 	sort.Strings(keys)
 	o.Put(map[string]interface{}{"baseline": base, "after_settle": afterSettle, "idle1": h1, "idle2": h2, "final": final,
-		"probe_ok": probeOK, "recovered_panics": fatal, "scenarios": len(scs), "results": results,
+		"probe_ok": probeOK, "probe_after_idle_ok": probeLate, "recovered_panics": fatal, "scenarios": len(scs), "results": results,
 		"held_open_by_lab": held, "waited_ms": waited,
 		"events": map[string]interface{}{"total": evTotal, "unserialisable": evJSONBad, "payload_fields_disagree": evPayloadBad, "samples": evSamples}})
 	note("written")
